@@ -52,6 +52,14 @@ PREDS = [
 ]
 
 
+PREDS_TRUTHY = [  # predicates that answer with a truthy / falsy value that is not a bool
+    ("n_CAB", lambda r: r.reac.get("C", 0) + r.reac.get("A", 0) + r.reac.get("B", 0)),  # 0, 1 or 2
+    ("keys_in_AB", lambda r: set(r.keys()) & {"A", "B"}),
+    ("half_if_order1", lambda r: 0.5 if r.order() == 1 else 0.0),
+    ("name_or_None", lambda r: "x" if r.param > 10 else None),
+]
+
+
 def bounds(tier):
     return dict(LMAX=4 if tier == "quick" else 5, pool=len(POOL), substances=len(SUBS), bfs_depth=4 if tier == "quick" else 5, conc_levels=[0, 1, 2])
 
@@ -254,7 +262,7 @@ def check_queries(res, rs, seq, subs, case, light=False):
             except Exception as e:
                 got = "EXC %s" % type(e).__name__
             cmp("per_reaction_effect_on_substance", got, {p: net_of(i, s) for p, i in enumerate(seq) if net_of(i, s) != 0})
-        for pname, pred in PREDS:
+        for pname, pred in PREDS + PREDS_TRUTHY:
             try:
                 yes, no = rs.subset(pred)
                 got = [(ids_of(x, rx), tuple(x.substances)) for x in (yes, no)]
@@ -491,6 +499,29 @@ def run_bounds(res, idx):
             for c2 in by_tot[tot]:
                 if any(x > b + 1e-12 for x, b in zip(c2, got)):
                     ok = False
+        if ok:
+            # the same state handed in as an array (substance order) of other number types and magnitudes: the bound is the one of the
+            # numbers the array holds
+            for tname, arr in (("float32*0.1", np.array(c, dtype=np.float32) * np.float32(0.1)), ("float64*0.1", np.array(c, dtype=np.float64) * 0.1),
+                               ("int16*15000", np.array(c, dtype=np.int16) * np.int16(15000)), ("int64*15000", np.array(c, dtype=np.int64) * 15000),
+                               ("uint8*100", np.array(c, dtype=np.uint8) * np.uint8(100)), ("list*0.1", [0.1 * x for x in c])):
+                res.evaluations += 1
+                vals = [float(x) for x in arr]
+                tot2 = tuple(sum(v * comp.get(k, 0) for v, (n, comp) in zip(vals, spec)) for k in (1, 2))
+                exp2 = []
+                for n, comp in spec:
+                    cands = [tot2[k - 1] / comp[k] for k in (1, 2) if comp.get(k)]
+                    exp2.append(min(cands) if cands else float("inf"))
+                try:
+                    got2 = [float(x) for x in rs.upper_conc_bounds(arr)]
+                except Exception as e:
+                    got2 = "EXC %s" % type(e).__name__
+                if isinstance(got2, str) or any(abs(g - e) > 1e-12 * abs(e) if e != float("inf") else g != e for g, e in zip(got2, exp2)):
+                    res.outcomes["bounds-array-WRONG"] += 1
+                    res.violation("C15|upper_conc_bounds|value|array-%s" % tname.split("*")[0], "upper_conc_bounds(%s array %r) = %r, least (element total)/(atoms per molecule) = %r" % (tname, vals, got2, exp2),
+                                  dict(layer="U", idx=idx, c=list(c)), got2, exp2)
+                else:
+                    res.outcomes["bounds-array-ok"] += 1
         res.outcomes["bounds-ok" if ok else "bounds-WRONG"] += 1
         if not ok:
             res.violation("C15|upper_conc_bounds|value", "upper_conc_bounds(%r) = %r, least (element total)/(atoms per molecule) = %r" % (dict(zip(names, c)), got, exp), dict(layer="U", idx=idx, c=list(c)), got, exp)
@@ -579,6 +610,34 @@ def run_arrays(res):
                     res.violation("C15|as_per_substance_array|wrong-length-accepted", "as_per_substance_array(%s of length %d) on %d substances %r: %s" % (tname, n, ns, subs, got),
                                   dict(layer="A", seq=list(seq), subs="".join(subs), vals=None, wrong=[tname, n]), got, "ValueError")
     res.sample(dict(layer="A", example="as_per_substance_array({'A': 2, ...}) in substance order 'GFECBA'"))
+
+
+def run_containers(res):
+    """the substances handed in as tuple / list / str / OrderedDict / tuple of Substance objects, with the sorting switch left out, off
+    and on: left out or off the substance order is the given one, on it is sorted; every conversion follows it"""
+    from chempy import ReactionSystem, Substance
+
+    for order in ("GFECBA", "BAC", "CAB", "ACB"):
+        rxns = [mk_rxn(0)] if "G" not in order else [mk_rxn(0), mk_rxn(9)]
+        conts = [("tuple", lambda: tuple(order)), ("list", lambda: list(order)), ("str", lambda: " ".join(order)),
+                 ("OrderedDict", lambda: OrderedDict((s_, Substance(s_)) for s_ in order)), ("tuple-of-Substance", lambda: tuple(Substance(s_) for s_ in order))]
+        for (cname, make), (kname, kw) in itertools.product(conts, (("left out", {}), ("False", dict(sort_substances=False)), ("True", dict(sort_substances=True)))):
+            res.states += 1
+            res.transitions += 1
+            res.evaluations += 1
+            res.nontrivial += 1
+            exp = sorted(order) if kname == "True" else list(order)
+            d = {s_: 2 + i for i, s_ in enumerate(sorted(order))}
+            try:
+                rs = ReactionSystem(rxns, make(), checks=(), **kw)
+                got = [list(rs.substances), list(rs.as_per_substance_array(d)), list(rs.as_per_substance_dict([d[s_] for s_ in exp]).items()), [rs.as_substance_index(s_) for s_ in exp]]
+            except Exception as e:
+                got = "EXC %s" % type(e).__name__
+            want = [exp, [d[s_] for s_ in exp], [(s_, d[s_]) for s_ in exp], list(range(len(exp)))]
+            res.outcomes["containers-%s" % ("ok" if got == want else "WRONG")] += 1
+            if got != want:
+                res.violation("C15|ReactionSystem|substance-order|%s|sort_substances %s" % (cname, kname), "ReactionSystem(..., substances as %s %r, sort_substances %s): [substances, array of %r, dict, indices] = %r, expected %r" % (
+                    cname, order, kname, d, got, want), dict(layer="A", seq=None, subs=order, vals=None, container=[cname, kname]), got, want)
 
 
 def run_chains(res, n, k):
@@ -775,6 +834,7 @@ def run_chunk(chunk, tier):
         run_bounds(res, chunk[1])
     else:
         run_arrays(res)
+        run_containers(res)
     return res
 
 
@@ -824,7 +884,7 @@ def replay(case):
         res.violations = [v for v in sub.violations if v["case"]["c"] == case["c"]]
     else:
         sub = Result()
-        run_arrays(sub)
+        run_containers(sub) if case.get("container") else run_arrays(sub)
         res.violations = [v for v in sub.violations if v["case"] == case]
     if res.violations:
         v = res.violations[0]
